@@ -343,6 +343,18 @@ def families(ctx, s):
                 if rel is None:
                     rel = _same_sources(dag, a, b, u1, u2)
                 ok = rel is True
+                if ok:
+                    # a literal conversion is exact only if neither side is rounded on its own grid afterwards
+                    rk = [(x[1].rule.rounding_key if x[1] is not None and x[1].rule is not None else None) for x in (a, b)]
+                    if rk[0] != rk[1] or (rk[0] is not None):
+                        params, _, _ = s.em.params(d)
+                        specs = []
+                        for x, k in zip((a, b), rk):
+                            grp = params.get(k) if k else None
+                            specs.append((grp or {}).get("rounding", {}).get(x[0]) if isinstance(grp, dict) else None)
+                        if any(sp is not None for sp in specs) or rk[0] != rk[1]:
+                            rel = f"{a[0]} is rounded with {specs[0] or rk[0]}, {b[0]} with {specs[1] or rk[1]}: after rounding the two no longer differ by the unit factor"
+                            ok = False
                 if tag not in checked:
                     checked.add(tag)
                 ctx.ob("Q3", ok=ok, distinct=tag)
